@@ -76,7 +76,10 @@ CHECKS["C33"] = _c("expansion of gogen's PopulateDefaults/getter templates (stan
 CHECKS["C29"] = _c("purity/effect analysis of ygot's path resolution, expansion of ypathgen's constructor and key-builder templates (standard library text/template, analyser-built data), value-flow rule on the generator's key-map text, same-source rule for relative paths, key type tables",
     "Decides that resolution caches nothing and renders names in order with every key through KeyValueAsString (ancestors first), that ModifyKey writes exactly the named key, that the generated constructor passes its receiver as parent with the generator's path list and key map, that every list constructor's key map has one entry per key (value or \"*\") with the empty form only for the all-wildcard non-builder case, and that path lists and GoStruct path tags derive from the same IR data.")
 
-for _p in ["C26","C27"]:
+CHECKS["C27"] = _c("structural analysis of the schema embedding path (key-domain agreement, no-filter loops, who-may-write on yang.Entry, complete marshal/gzip/decode) + read-set rule over goyang's json struct tags for everything reachable from the run-time API",
+    "Decides that struct names are recorded under the key they are looked up by, that no module child or entry is filtered out and only Description/Annotation are written before serialising, that the whole root is marshalled and gzipped completely, that decoding restores Parent and indexes every annotated entry, and that run-time code reads only entry fields that survive serialisation.")
+
+for _p in ["C26"]:
     NA[_p] = NOT_YET
 NA["C10"] = "quantifies over runtime trees, paths and payloads; its structural clauses (key and value tables) are decided under C16/C18 and the frame clause has no static handle here (DESIGN.md §7)"
 NA["C23"] = "classification of runtime leaves after single-leaf edits; no clause visible in code shape beyond those claimed under C22 (DESIGN.md §7)"
